@@ -223,7 +223,9 @@ class MailboxData(MailboxDataInterface[Message]):
 
     async def update_selected(self, selected: SelectedMailbox, *,
                               wait_on: Event | None = None) -> SelectedMailbox:
-        if wait_on is not None:
+        if wait_on is not None \
+                and selected.mod_sequence == self._mod_sequences.highest:
+            # only block when there is nothing new to report yet
             either_event = wait_on.or_event(self._updated)
             await either_event.wait()
         mod_sequence = selected.mod_sequence
